@@ -455,7 +455,7 @@ def san(n):
 class Emitter:
     def __init__(s, M):
         s.M = M; s.typedefs = collections.OrderedDict(); s.lit = {}; s.done_struct = set(); s.struct_order = []
-        s.out_fn = []; s.need = []; s.helpers = set(); s.loop_hooks = []; s.alias_of = {}; s.loop_havoc = {}; s.asserts = []
+        s.out_fn = []; s.need = []; s.helpers = set(); s.loop_hooks = []; s.alias_of = {}; s.loop_havoc = {}; s.loop_iv = {}; s.asserts = []
     def fn_id(s, name):
         import hashlib
         if name in s.alias_of: return s.alias_of[name]
@@ -730,6 +730,15 @@ class Emitter:
                 if a_.startswith('phi:'): items.append(('v_' + san(a_[4:]), s.cty(hv[a_])))
                 else: items.append(('m_' + san(a_), s.cty(alloca_ty[a_])))
             s.loop_havoc[(fid, san(h))] = items
+            # induction variable: the alloca that is loaded in the header block and stored in a latch block (source of a back edge)
+            ld = set(root_alloca[x_.ptr.name] for x_ in f.blocks[h] if x_.op == 'load' and x_.ptr.kind == 'local' and x_.ptr.name in root_alloca)
+            st = set()
+            for (b_, hh) in backedges:
+                if hh != h: continue
+                for x_ in f.blocks[b_]:
+                    if x_.op == 'store' and x_.ptr.kind == 'local' and x_.ptr.name in root_alloca: st.add(root_alloca[x_.ptr.name])
+            iv = sorted(ld & st)
+            s.loop_iv[(fid, san(h))] = ('m_' + san(iv[0])) if len(iv) == 1 else None
             s.loop_hooks.append((fid, san(h), s.M.dem.get(f.name, f.name)))
         _goto = goto
         def goto(frm, to, _g=_goto):
@@ -1163,7 +1172,9 @@ def translate(M, roots, stubs=None, rt1='verif_rt.h', rt2='verif_rt2.h'):
             b.append('#ifndef VERIF_LOOP_%s_%s_%s\n#define VERIF_LOOP_%s_%s_%s ((void)0)\n#endif' % (k, fid, lab, k, fid, lab))
         hv = E.loop_havoc.get((fid, lab), [])
         b.append('#define VERIF_LOOP_HAVOC_%s_%s do { %s } while (0)' % (fid, lab, ' '.join('{ %s t_; %s = t_; }' % (ty, nm) for nm, ty in hv)))
-        loops.append({'fn': fid, 'label': lab, 'in': dem_[:200], 'havoc': [nm for nm, ty in hv]})
+        iv = E.loop_iv.get((fid, lab))
+        if iv: b.append('#define VERIF_LOOP_IV_%s_%s %s' % (fid, lab, iv))
+        loops.append({'fn': fid, 'label': lab, 'in': dem_[:200], 'havoc': [nm for nm, ty in hv], 'iv': iv})
     b.extend(body)
     info = {'functions': [M.dem[n][:240] for n in done], 'n_functions': len(done), 'stubs': [M.dem[n][:240] for n in sorted(called_stubs)],
             'externals': sorted(externals), 'loops': loops, 'asserts': len(E.asserts),
